@@ -24,7 +24,7 @@ VARS = ["x", "z"]
 INPUT = {"x": "u", "z": "w"}
 Y0 = {"x": 4.0, "z": 1.0}
 RTOL, ATOL = 1e-6, 1e-6  # |a-b| <= 1e-6 * (1 + max|a|,|b|): LSODA runs at rtol = atol = 1e-8 per step
-FINDING_STEADY = "F-C04-2"
+STEP_SIZE = 100  # Scipy.integrate_to_steady_state's default step_size (python oracle only; the Lean side reads it from the source)
 
 
 # ----------------------------------------------------------------------------- numbers
@@ -92,13 +92,24 @@ def real_run(case):
     from mxlpy import Simulator, make_protocol
     from mxlpy.integrators.int_scipy import Scipy
 
+    import inspect
+
     log = []
+    step_size = inspect.signature(Scipy.integrate_to_steady_state).parameters["step_size"].default
 
     class Recording(Scipy):
+        """the steady-state solver's answer is an input of the model: the loop iteration k at which it stopped,
+        read off the reported time  t0 + step_size * (k + 1)  (t0 = the integrator's clock before the call)"""
+
         def integrate_to_steady_state(self, **kw):
+            t0 = float(self.t0)
             r = super().integrate_to_steady_state(**kw)
             v = r.value
-            log.append(float(v.time[0]) if hasattr(v, "time") else None)
+            if hasattr(v, "time"):
+                q = (Fraction(float(v.time[0])) - Fraction(t0)) / Fraction(step_size) - 1
+                log.append(int(q) if q.denominator == 1 and q >= 0 else f"off-grid:{float(v.time[0])!r} from {t0!r}")
+            else:
+                log.append(None)
             return r
 
     sim = Simulator(build_model(case["pars"]), integrator=Recording)
@@ -159,7 +170,12 @@ def real_run(case):
             outs.append("other:" + type(e).__name__)
         if kind == "steady":
             got = log[n0:]
-            op2 = ["steady", None if not got or got[0] is None else fs(got[0])]
+            k = got[0] if got else None
+            if isinstance(k, str):
+                # the reported time is not  integrator clock + a positive multiple of step_size
+                outs[-1] = "steady-state time " + k
+                k = None
+            op2 = ["steady", k]
         ops.append(op2)
     snaps.append(_snapshot(sim))
     out = {"outs": outs, "snaps": snaps, "ops": ops}
@@ -435,7 +451,7 @@ def py_oracle(case, real):
             if op[1] is None:
                 failed = True
             else:
-                d = F(op[1])
+                d = F(STEP_SIZE * (op[1] + 1))
                 cur = _flow(p, cur, d)
                 now, have = now + d, True
                 expected.append((now, dict(cur)))
@@ -549,31 +565,12 @@ def judge_one(ctx, case, real, drv, record=True):
     """one history -> 'ok' | 'finding' | 'violation'"""
     if drv is None:
         bad = py_oracle(case, real)
-        if bad and not _in_steady_class_py(real):
+        if bad:
             ctx.violation(case, bad[:3], "python oracle (Lean side unavailable)")
             return "violation"
         return "ok"
-    R, M, S, okhist = assemble(case, real, drv)
-    finding = None if okhist else FINDING_STEADY
-    return ctx.judge(case, R, S, M, finding=finding, what="history outcome / index / parameters / states")
-
-
-def _in_steady_class_py(real):
-    """histories with a steady-state run that is not the first simulation op after start / clear / override"""
-    steady_ok, sim_ok = True, True
-    for op in real["ops"]:
-        k = op[0]
-        if k in ("sim", "tc", "proto", "ptc"):
-            if not sim_ok:
-                return True
-            steady_ok = False
-        elif k == "steady":
-            if not steady_ok:
-                return True
-            steady_ok, sim_ok = False, False
-        elif k in ("var", "clear"):
-            steady_ok, sim_ok = True, True
-    return False
+    R, M, S, _ = assemble(case, real, drv)
+    return ctx.judge(case, R, S, M, finding=None, what="history outcome / index / parameters / states")
 
 
 def shrink(ctx, case, op="c04"):
@@ -582,13 +579,11 @@ def shrink(ctx, case, op="c04"):
     def is_violation(c):
         (real, drv), = evaluate([c], ctx.driver_ok, op=op, parallel=False)
         if drv is None:
-            return bool(py_oracle(c, real)) and not _in_steady_class_py(real)
-        R, M, S, okhist = assemble(c, real, drv)
+            return bool(py_oracle(c, real))
+        R, M, S, _ = assemble(c, real, drv)
         from vlib.framework import canon
 
-        if canon(R) == canon(S):
-            return False
-        return not (not okhist and FINDING_STEADY in ctx.known and canon(R) == canon(M))
+        return canon(R) != canon(S)
 
     cur = case
     changed = True
@@ -620,6 +615,9 @@ def process(ctx, cases, op="c04", shape=shape_of):
 
 # ----------------------------------------------------------------------------- entry points
 def setup(ctx):
+    from translate import c04 as tr
+
+    ctx.translate(tr.generate)
     ctx.build(PROPS)
     ctx.rule = (
         "op histories over simulate / simulate_time_course / simulate_to_steady_state / update_parameters / "
@@ -630,11 +628,14 @@ def setup(ctx):
     ctx.assumptions += [
         "the ODE solver is a parameter of the model (exact flow); scipy's accuracy and its t_eval handling are "
         "exercised by the tie at 1e-6 relative, not proved",
-        "the steady-state solver's reported time is an oracle input of the model (read from the real run)",
+        "the iteration at which the steady-state solver's loop stops is an input of the model (read from the real run: "
+        "reported time = integrator clock + step_size * (k + 1), checked)",
         "float rounding of time arithmetic is not modelled: times are dyadic, step counts powers of two (other step "
         "counts: index compared to 1e-9)",
     ]
-    ctx.trusted_base += ["scipy.integrate.solve_ivp / ode (LSODA), numpy.linspace, pandas DataFrame/Index (modelled, tied by test)"]
+    ctx.trusted_base += ["scipy.integrate.solve_ivp / ode (LSODA), numpy.linspace, pandas DataFrame/Index (modelled, tied by test)",
+                         "translate/c04.py (comparison operators, skipfirst flags, statement orders, defaults of simulator.py / "
+                         "int_scipy.py -> Generated/C04Facts.lean)"]
 
 
 def run(ctx):
